@@ -600,7 +600,49 @@ pub fn run(opts: &Opts, out: &mut Emitter, c04: bool) {
             }
         }
     }
-    // a block whose target needs padding from loose matches (token + lovelace, several UTxOs), next to
+    // independent blocks: two or three blocks without an address, each pinned to its own reference or asking for a
+    // token only its own UTxO holds - whatever one of them sees or takes is nothing the others can use, so each must be
+    // bound exactly as it would be alone (in every name order)
+    for kind in 0..3u8 {
+        for n in 2..=3usize {
+            for rev in [false, true] {
+                let toks = ["X", "Y", "L"];
+                let st: Vec<U> = (0..n)
+                    .map(|i| U { txid: (i + 1) as u8, index: i as u32, addr: ["A", "B", "C"][i], assets: vec![("L", 5), (toks[i % 2], if kind == 0 { 0 } else { 3 })] })
+                    .collect();
+                let mut qs: Vec<Q> = (0..n)
+                    .map(|i| Q {
+                        name: format!("{}{i}", if rev { ["z", "m", "a"][i] } else { "b" }),
+                        addr: None,
+                        min: if kind == 0 { Some(vec![("L", 1)]) } else { Some(vec![(toks[i % 2], 1)]) },
+                        refs: if kind != 1 { vec![((i + 1) as u8, i as u32)] } else { vec![] },
+                        many: kind == 2 && i == 1,
+                        collateral: false,
+                    })
+                    .collect();
+                if kind == 1 {
+                    // by token only: two blocks, each after the token one UTxO holds
+                    qs.truncate(2);
+                }
+                emit(out, "independent-blocks", &st, &qs, true);
+            }
+        }
+    }
+    // outputs of one transaction whose indices are congruent modulo 2^8 and 2^16 (the reference holds 32 bits and
+    // nothing bounds it): two or three blocks that each get one of them - the body must list each exactly once
+    if c04 {
+        for idx in [vec![1u32, 257], vec![1, 65_537], vec![0, 65_536, 131_072], vec![5, 65_541, u32::MAX]] {
+            for pinned in [false, true] {
+                let st: Vec<U> = idx.iter().map(|i| U { txid: 9, index: *i, addr: "A", assets: vec![("L", 5)] }).collect();
+                let qs: Vec<Q> = idx
+                    .iter()
+                    .enumerate()
+                    .map(|(k, i)| Q { name: format!("b{k}"), addr: Some("A"), min: Some(vec![("L", 1)]), refs: if pinned { vec![(9u8, *i)] } else { vec![] }, many: false, collateral: false })
+                    .collect();
+                emit(out, "wide-index", &st, &qs, true);
+            }
+        }
+    }
     // blocks that take the plain-lovelace UTxOs of the same party — in both name orders
     for _ in 0..rounds / 3 {
         let mut st = vec![];
